@@ -157,9 +157,21 @@ Theorem C15_e2e_proxy_line : forall l, proxy_line l = existsb (maps_to (line_nam
 Proof. exact proxy_line_spec. Qed.
 Print Assumptions C15_e2e_proxy_line.
 
+(* Whether an accepted request is chunked is decided by its version and its
+   Transfer-Encoding line(s) -- lines that are never ignorable; so two requests
+   as in (2) below have the same framing verdict, and "same body" there only
+   has to say that wsgi.input yields the same bytes. *)
+Theorem C15_e2e_framing_verdict : forall a ds p fl lines,
+  feed_all a ds = Some p -> accepted p -> head_parts (concat ds) = Some (fl, lines) ->
+  chunked p = beqb (version p) s_1_1 && nonnil (te_encodings (te_of_lines lines)) /\
+  te_of_lines (kept_lines lines) = te_of_lines lines.
+Proof. exact c15_e2e_chunked. Qed.
+Print Assumptions C15_e2e_framing_verdict.
+
 (* (2) The composition.  Two byte-level requests (any segmentation each) that
-   are both accepted, have the same request line, the same body framing and
-   body, and header lines that differ at most in lines named like one of the six
+   are both accepted, have the same request line, the same body ([same_body]:
+   get_body_stream, what wsgi.input yields, is the same byte string),
+   and header lines that differ at most in lines named like one of the six
    proxy headers and in lines whose name contains an underscore (any values,
    any number, anywhere); a peer that is not the trusted proxy ("*" excluded);
    any configuration.  Then both are handed to the application; the two
